@@ -115,6 +115,18 @@ CLAIMS = {
         "adjacent two-site Pauli expectation values.",
         COMMON_NOTE + "Axioms: closed under the global context for the scheduling theorems; the real-number axioms for the C18 part.",
         "DESIGN.md §3 C02"),
+    "C11": (
+        "Coq proof (stable site-sort is a permutation; object-wise attribution; centre discipline by induction over the sorted list) + exact read-log correspondence (centre measured on the real tensors) + dense-vector search",
+        "Machine-checked proof, for every list of observables (any order, any mixture with diagnostics): every observable object is "
+        "evaluated exactly once and receives the value computed for it; every local expectation value is read from a state whose "
+        "orthogonality centre is on the observable's first site, every entropy / Schmidt spectrum with the centre on its bond. The "
+        "model's read log is compared exactly with the real evaluate_observables (wrappers record which object is read and where the "
+        "centre of the state being read is, from the isometry of the real tensors). PARTIAL: that a centred local contraction equals "
+        "the dense expectation value (isometry of the environments) is not mechanised here; the search compares every observable kind "
+        "of the library on random entangled normalised states, plus norm, overlap and bitstring probability, and shuffled lists "
+        "through simulator.run, with the dense vector.",
+        COMMON_NOTE,
+        "DESIGN.md §3 C11"),
 }
 
 NOT_YET = "check not built yet in this round (planned in DESIGN.md §3); no claim is made"
